@@ -7,19 +7,21 @@ namespace AgdbDb
 open Db
 
 /-- the commands `s'` has on top of `s` undo the abstract difference between them -/
-def Und (s s' : Db) : Prop := ∃ cmds, s'.undo = cmds ++ s.undo ∧ UndoOk cmds s'.abs s.abs
+def Und (s s' : Db) : Prop :=
+  (∃ cmds, s'.undo = cmds ++ s.undo ∧ UndoOk cmds s'.abs s.abs) ∧ GReach s.graph s'.graph
 
-theorem Und.refl (s : Db) : Und s s := ⟨[], rfl, rfl⟩
+theorem Und.refl (s : Db) : Und s s := ⟨⟨[], rfl, rfl⟩, GReach.refl _⟩
 
 theorem Und.trans {a b c : Db} (h1 : Und a b) (h2 : Und b c) : Und a c := by
-  obtain ⟨c1, e1, u1⟩ := h1
-  obtain ⟨c2, e2, u2⟩ := h2
-  exact ⟨c2 ++ c1, by rw [e2, e1, List.append_assoc], u2.append u1⟩
+  obtain ⟨⟨c1, e1, u1⟩, g1⟩ := h1
+  obtain ⟨⟨c2, e2, u2⟩, g2⟩ := h2
+  exact ⟨⟨c2 ++ c1, by rw [e2, e1, List.append_assoc], u2.append u1⟩, g1.trans g2⟩
 
-/-- `Und` only looks at the undo stack and the abstract view of its second argument -/
-theorem Und.congr {s a b : Db} (h : Und s a) (hu : b.undo = a.undo) (ha : b.abs = a.abs) : Und s b := by
-  obtain ⟨c, e, u⟩ := h
-  exact ⟨c, by rw [hu, e], by rw [ha]; exact u⟩
+/-- `Und` only looks at the undo stack, the abstract view and the graph of its second argument -/
+theorem Und.congr {s a b : Db} (h : Und s a) (hu : b.undo = a.undo) (ha : b.abs = a.abs) (hg : b.graph = a.graph) :
+    Und s b := by
+  obtain ⟨⟨c, e, u⟩, g⟩ := h
+  exact ⟨⟨c, by rw [hu, e], by rw [ha]; exact u⟩, by rw [hg]; exact g⟩
 
 /-- full invariant at the boundaries of `DbImpl` calls -/
 structure Db.Inv (s : Db) : Prop where
@@ -52,9 +54,10 @@ theorem und_of_cmd (s u : Db) (c : Cmd) (cbar : List Cmd) (hs : s.SInv) (hp : pr
     ({ u with undo := cbar ++ s.undo } : Db).SInv ∧ ({ u with undo := cbar ++ s.undo } : Db).abs = aundo c s.abs ∧
     Und s { u with undo := cbar ++ s.undo } := by
   obtain ⟨u', hu', habs, hsi, _⟩ := undoCmd_refines c s hs hp
+  have hgr := undoCmd_greach c s u hs hp hu
   rw [hu] at hu'; cases hu'
   have habs' : ({ u with undo := cbar ++ s.undo } : Db).abs = aundo c s.abs := habs
-  refine ⟨⟨hsi.wf, hsi.kvNodup, hsi.aliasBij, hsi.ixNodup⟩, habs', ⟨cbar, rfl, ?_⟩⟩
+  refine ⟨⟨hsi.wf, hsi.kvNodup, hsi.aliasBij, hsi.ixNodup⟩, habs', ⟨⟨cbar, rfl, ?_⟩, hgr⟩⟩
   rw [habs']; exact hok
 
 theorem IxInvG.congr {σ : Nat → Int} {A B : ADb} (h : IxInvG σ A) (h1 : B.index = A.index) (h2 : B.kv = A.kv) :
@@ -316,7 +319,7 @@ theorem und_removeAllValues (σ : Nat → Int) (id : Int) (hid : id ≠ 0) (hs :
     · intro k; show (ixFind _ k).map countFn = (ixFind _ k).map countFn; rw [f2]; rfl
   have hundo : (Db.removeAllValues id s).undo =
       ((kvGet s.values id.natAbs).foldl (fun s kv => Db.removeKeyValue1 id kv s) s).undo := by rw [f1]; rfl
-  refine ⟨⟨h1.wf, ?_, h1.aliasBij, ?_⟩, by rw [habs]; exact r2, r3.congr hundo habs, rfl, rfl, hkv⟩
+  refine ⟨⟨h1.wf, ?_, h1.aliasBij, ?_⟩, by rw [habs]; exact r2, r3.congr hundo habs (by rw [r4]; rfl), rfl, rfl, hkv⟩
   · intro j; show (keysOf (kvGet (kvSet s.values id.natAbs []) j)).Nodup
     rw [kvGet_kvSet]; split
     · simp [keysOf]
@@ -693,7 +696,7 @@ theorem fwd_insertIndex (s : Db) (hi : s.Inv) (k : Val) : Fwd s (Db.insertIndex 
         | some l => simp [hk, Db.abs, h]
     have hnone : s.abs.index k = none := by show (ixFind s.indexes k).map countFn = none; rw [hf]; rfl
     refine ⟨⟨⟨hi.sinv.wf, hi.sinv.kvNodup, hi.sinv.aliasBij, nodup_ixKeys_append _ k _ hi.sinv.ixNodup hf⟩, ?_⟩,
-      ⟨[Cmd.removeIndex k], rfl, step_insertIndex s.abs _ k _ hnone rfl rfl rfl rfl rfl hidx⟩⟩
+      ⟨⟨[Cmd.removeIndex k], rfl, step_insertIndex s.abs _ k _ hnone rfl rfl rfl rfl rfl hidx⟩, GReach.refl _⟩⟩
     refine ⟨?_, hi.binv.k2, hi.binv.a2⟩
     intro k' m hm v id
     rw [hidx] at hm
